@@ -14,6 +14,7 @@ import (
 	"net/url"
 	"os"
 	"sort"
+	"strings"
 
 	"github.com/gorilla/mux"
 	whttp "github.com/transparency-dev/witness/client/http"
@@ -104,7 +105,20 @@ func main() {
 				run.Distinct("nontrivial", fmt.Sprintf("known/%d/%v/%s/%d", rec.Code, want != nil, h.Kind, len(s.After.Logs)))
 			}
 			// unknown and odd IDs
+			kl := u.Logs[r.IntN(len(u.Logs))]
+			mixed := []byte(kl.ID)
+			for k := range mixed {
+				if r.IntN(2) == 0 {
+					mixed[k] = strings.ToUpper(string(mixed[k]))[0]
+				}
+			}
 			ids := []string{fmt.Sprintf("%064x", r.Uint64()), refnote.LogID("never configured"), u.Logs[0].ID[:len(u.Logs[0].ID)-1], u.Logs[0].ID + "0", oddIDs[r.IntN(len(oddIDs))], oddIDs[r.IntN(len(oddIDs))]}
+			// other spellings of a known ID are other IDs
+			for _, v := range []string{strings.ToUpper(kl.ID), string(mixed), "0" + kl.ID, kl.ID + "-", "-" + kl.ID} {
+				if v != kl.ID {
+					ids = append(ids, v)
+				}
+			}
 			for _, id := range ids {
 				rec := get(id)
 				run.Count("get_unknown_or_odd")
